@@ -3,6 +3,9 @@
 mod rng;
 mod util;
 mod tables;
+pub mod alloc;
+#[global_allocator]
+static GLOBAL: alloc::Track = alloc::Track;
 mod scriptgen;
 
 use std::cell::RefCell;
@@ -34,8 +37,12 @@ fn main() {
         LAST_PANIC.with(|l| *l.borrow_mut() = loc);
     }));
     let args: Vec<String> = std::env::args().collect();
-    let stdout = std::io::stdout();
-    let mut w = std::io::BufWriter::new(stdout.lock());
+    // results go to the file named by CGH_OUT when set (the library itself prints to stdout in places)
+    let sink: Box<dyn Write> = match std::env::var("CGH_OUT") {
+        Ok(p) if !p.is_empty() => Box::new(std::fs::File::create(p).expect("cannot create CGH_OUT")),
+        _ => Box::new(std::io::stdout()),
+    };
+    let mut w = std::io::BufWriter::new(sink);
     match args.get(1).map(|s| s.as_str()) {
         Some("tables") => { tables::print(&mut w); for (_, _, _, t) in registry() { t(&mut w); } }
         Some("gen") => {
@@ -45,7 +52,15 @@ fn main() {
             let mut rng = rng::Rng::new(seed);
             let mut reqs = Vec::new();
             for (p, g, _, _) in registry() { if p == prop { g(tier, &mut rng, &mut reqs); } }
-            for r in reqs { let o = exec_line(&r); writeln!(w, "{}\t{}", r, o).unwrap(); }
+            let mut capped = 0usize;
+            for r in reqs {
+                alloc::reset();
+                let o = exec_line(&r);
+                // harness memory cap (not for C06, whose subject is the allocation itself)
+                if prop != "C06" && alloc::max_request() > alloc::CAP { capped += 1; continue; }
+                writeln!(w, "{}\t{}", r, o).unwrap();
+            }
+            if capped > 0 { eprintln!("memcap: dropped {} case(s) whose evaluation requested more than {} bytes at once", capped, alloc::CAP); }
         }
         Some("replay") => {
             let stdin = std::io::stdin();
